@@ -13,7 +13,7 @@ CONFIG = {
                   "data/transactions/logic/zz_verif_avmenv_test.go"],
         "util": [("data/transactions/logic", "logic")],
         "env": {"quick": {"VERIF_C33_A": 3000, "VERIF_C33_D": 3000},
-                "thorough": {"VERIF_C33_A": 150000, "VERIF_C33_D": 150000}},
+                "thorough": {"VERIF_C33_A": 60000, "VERIF_C33_D": 60000}},
         "timeout": {"quick": 900, "thorough": 3000},
     }],
     "rule": "a: programs generated from opsByOpcode[v] for every version 0..LogicVersion (every assemblable op of every version "
